@@ -19,8 +19,8 @@ PROPERTY = "C19"
 
 META = {
     "bounds": {
-        "quick": "12 probes x every single history item (16) + 120 VERIF_SEED-drawn histories of 2-3 items; history values hv (16 bit) and probe value pv (16 bit) symbolic; each job in a fresh process, probe run before and after the history",
-        "thorough": "12 probes x every history of <= 2 items (272) + 300 drawn histories of 3",
+        "quick": "15 probes x every single history item (17) + 120 VERIF_SEED-drawn histories of 2-3 items; history values hv (16 bit) and probe value pv (16 bit) symbolic; each job in a fresh process, probe run before and after the history",
+        "thorough": "15 probes x every history of <= 2 items + 300 drawn histories of 3",
     },
     "outside": ["histories longer than 3 assemblies", "state outside the Python process (files are virtual)"],
     "oracle": "non-interference: probe result after the history == probe result in the pristine process (same symbolic terms), and a second repetition gives the same result again",
@@ -48,6 +48,9 @@ HISTORY = {
     "defs-symbols": ("low", "*=0x9000\nsym = hv\nx := hv + 1\nstart:\nloop:\nl:\n.dw sym, x\n.scope ns {\nl:\n}\n", {}),
     "defs-table": ("low", "*=0x8000\n.table 'h.tbl'\n.text 'ab'\n", {"h.tbl": "7f=a\n7e=b\n"}),
     "relocated": ("low", "*=0x8000\n@=0x7e1000\nr:\n.dl r\n.db hv\n", {}),
+    # the same file names as the probes use, holding other contents
+    "same-file-names": ("low", "*=0x8000\n.table 'p.tbl'\n.text 'ab'\n.incbin 'p.bin'\n.include 'p.s'\n.include_ips 'p.ips', 0x10\n",
+                        {"p.tbl": "71=a\n72=b\n", "p.bin": b"\x99\x98\x97\x96\x95", "p.s": ".db 0x77, 0x78\nincluded_label:\n", "p.ips": b"PATCH\x00\x00\x40\x00\x03abcEOF"}),
     "file-api": ("low", None, {}),
     "cli": ("low", None, {}),
 }
@@ -60,11 +63,27 @@ PROBES = {
     "undef-x": ("low", "*=0x8000\n.dw x + 1\n", {}),
     "no-table": ("low", "*=0x8000\n.text 'ab'\n", {}),
     "own-table": ("low", "*=0x8000\n.table 'p.tbl'\n.text 'ab'\n", {"p.tbl": "01=a\n02=b\n"}),
+    "own-incbin": ("low", "*=0x8000\n.incbin 'p.bin'\nafter:\n.dl after, p_bin, p_bin__size\n", {"p.bin": b"\x01\x02\x03"}),
+    "own-include": ("low", "*=0x8000\n.include 'p.s'\nafter:\n.dl after\n", {"p.s": "lda.w #pv\n"}),
+    "own-ips": ("low", "*=0x8000\n.db pv\n.include_ips 'p.ips', 0\n", {"p.ips": b"PATCH\x00\x01\x00\x00\x02xyEOF"}),
     "high": ("high", "*=0xC10000\nh:\n.dw pv\n.dl h\n", {}),
     "lorom-offset": ("low", "*=0x018000\n.db pv\n*=0x001000\n.db 2\n", {}),
     "own-map": ("low", ".map identifier=1 bank_range=0x10, 0x1f addr_range=0x8000, 0xffff mask=0x8000\n*=0x108000\nq:\n.dl q\n", {}),
     "scopes": ("low", "*=0x8000\n.scope ns {\nl:\n.db pv\n}\n.for i := 0, 2 {\nl:\n.db i\n}\n{\nl:\n.dl l\n}\n.dl ns.l\n", {}),
     "error-location": ("low", "*=0x8000\n; comment\n/* a\nb */\n.dw 1, nosuch\n", {}),
+}
+
+
+def _le3(x):
+    return [x & 0xFF, (x >> 8) & 0xFF, (x >> 16) & 0xFF]
+
+
+# known outputs of the file-dependent probes: [(offset, [bytes; "pv.lo"/"pv.hi" for the symbolic value])]
+EXPECT = {
+    "own-incbin": [(0, [1, 2, 3] + _le3(0x8003) + _le3(0x8000) + _le3(3))],
+    "own-include": [(0, [0xA9, "pv.lo", "pv.hi"] + _le3(0x8003))],
+    "own-ips": [(0x100, [ord("x"), ord("y")]), (0, ["pv.lo"])],
+    "own-table": [(0, [1, 2])],
 }
 
 
@@ -77,6 +96,11 @@ def jobs(tier, seed):
     for pn in PROBES:
         for h in hs:
             out.append({"id": f"{pn}/after/{'+'.join(h)}", "probe": pn, "history": list(h)})
+    # history first, in a process that has never seen the probe: the result is compared with the
+    # probe's known output (catches state keyed by file name / source text that a first run would prime)
+    for pn in EXPECT:
+        for h in ("same-file-names", "defs-table", "valid", "fail-node-error"):
+            out.append({"id": f"{pn}/history-first/{h}", "probe": pn, "history": [h], "order": "history-first"})
     rnd = random.Random(seed * 131 + 5)
     for k in range(120 if tier == "quick" else 300):
         n = rnd.choice([2, 3]) if tier == "quick" else 3
@@ -158,6 +182,10 @@ def run(spec, cx):
     pv = cx.int("pv", 0, 0xFFFF)
     hv = cx.int("hv", 0, 0xFFFF)
     rom, src, files = PROBES[spec["probe"]]
+    if spec.get("order") == "history-first":
+        for h in spec["history"]:
+            run_history_item(h, {"hv": hv}, cx)
+        return (assemble_one(rom, src, files, {"pv": pv}, cx),)
     before = assemble_one(rom, src, files, {"pv": pv}, cx)
     for h in spec["history"]:
         run_history_item(h, {"hv": hv}, cx)
@@ -209,6 +237,21 @@ def _same(a, b):
 
 
 def check(spec, cx, out):
+    if spec.get("order") == "history-first":
+        r = out[0]
+        exp = EXPECT[spec["probe"]]
+        if r[0] != "ok" or len(r[1]) != len(exp):
+            return [("probe-output-after-history", z3.BoolVal(False))]
+        pv = cx.t("pv")
+        conds = []
+        for (a, d), (ea, ed) in zip(r[1], exp):
+            bs = blist(d)
+            if len(bs) != len(ed):
+                return [("probe-output-after-history", z3.BoolVal(False))]
+            conds.append(bv(a) == ea)
+            for x, y in zip(bs, ed):
+                conds.append(x == (pv & 0xFF if y == "pv.lo" else (pv >> 8) & 0xFF if y == "pv.hi" else y))
+        return [("probe-output-after-history", z3.And(*conds))]
     before, after, again = out
     return [
         ("probe-unchanged-by-history", _same(before, after)),
